@@ -255,7 +255,8 @@ func checkC02(c *Check) {
 	// ---- R7 a settlement hands every open payment to its caller (shared with C03-R2): AccountClose pays out exactly
 	// the payments it is handed, a payee left out never receives what accrued
 	c.settleHandsOnPayments("R7", settle)
-	c.Floor("R7", 4)
+	c.statePersistedRule("R7", kfuncs)
+	c.Floor("R7", 11)
 
 	// ---- R5 SettledAt
 	nset := 0
